@@ -127,6 +127,11 @@ func (gowFamily) Exec(c *hc.Case) {
 	}
 	ctx, cancel := context.WithCancel(context.Background())
 	defer cancel()
+	if p.Order == "finish_first" && p.K%2 == 0 {
+		// make sure the function really has finished (result or panic already handed over) before Go's select
+		// looks at anything: Done() is the first thing the select evaluates
+		ctx = slowDoneCtx{ctx}
+	}
 	release := make(chan struct{})
 	entered := make(chan struct{}, 1)
 	finish := func() error {
@@ -223,6 +228,9 @@ func (gowFamily) Exec(c *hc.Case) {
 	}
 	c.Outs = []string{fmt.Sprintf("(%s, [%s])", result, strings.Join(sl, "; "))}
 	// ---- the property's own clauses
+	if p.Order == "finish_first" && p.Outcome == "panic" && !strings.HasPrefix(outcomeName(got.err, got.pv), "OutPanic") {
+		c.Viol = append(c.Viol, hc.Violation{Clause: "C10: a panic raised by the run function or the fallback reaches the caller of Go with the same panic value (the call's context has not ended)", Detail: fmt.Sprintf("Go returned %s", result), AtOp: 0})
+	}
 	if !prompt {
 		c.Viol = append(c.Viol, hc.Violation{Clause: "Go returns as soon as the caller's context or the execution timeout ends, even if the run function never returns", Detail: "Go was still blocked 3s after the context ended", AtOp: 0})
 	}
@@ -268,4 +276,12 @@ func (gowFamily) Emit(w io.Writer, f *hc.File) {
 	fmt.Fprintln(w, "].")
 	fmt.Fprintln(w, "Definition result := Eval vm_compute in gow_mismatches cases.")
 	fmt.Fprintln(w, "Print result.")
+}
+
+// slowDoneCtx delays the first look at Done(), nothing else.
+type slowDoneCtx struct{ context.Context }
+
+func (s slowDoneCtx) Done() <-chan struct{} {
+	time.Sleep(2 * time.Millisecond)
+	return s.Context.Done()
 }
